@@ -123,6 +123,7 @@ package bigbuff
 //@   def pack(d) = (u64(d) << 32) | u64(u32(d))
 
 //@ func (*ChanCaster).Add
+//@   maypanic
 //@   props C08
 //@   mode bv
 //@   ensures range : ret >= 0 && ret <= 2147483647
@@ -146,6 +147,7 @@ package bigbuff
 //@   loop 0 invariant absorbed : 0 <= rangeint_iter && rangeint_iter < delta && recvd(x.C) == old(recvd(x.C)) + u64(rangeint_iter)
 
 //@ func (*ChanCaster).Send
+//@   maypanic
 //@   props C08
 //@   mode bv
 //@   ensures range : ret >= 0 && ret <= 2147483647
@@ -220,9 +222,11 @@ package bigbuff
 //@   ensures frame : unchanged(c.buffer, c.rollback, c.k)
 
 //@ func (*Channel).Close
+//@   maypanic
 //@   props C13 C12
 
 //@ func (*Channel).Close$1
+//@   maypanic
 //@   props C13 C12
 //@   at-call builtin.close#0 ordered : heldW(c.mutex) && calls(c.cancel) >= 1
 //@   at-call dynamic#0 locked : heldW(c.mutex)
@@ -246,6 +250,7 @@ package bigbuff
 //@   inv mutex items : all(i, 0, len(w.queue), w.queue[i] != nil && w.queue[i].value != nil && w.queue[i].output != nil && !closed(w.queue[i].output))
 
 //@ func (*Workers).Call
+//@   maypanic
 //@   props C14
 //@   action mutex
 //@   panics badcount : count <= 0
@@ -258,12 +263,14 @@ package bigbuff
 //@   ensures enqueued : len(w.queue) >= 1 ==> true
 
 //@ func (*Workers).worker
+//@   maypanic
 //@   props C14
 //@   # a running worker accounts for one unit of count: count is incremented once before each `go w.worker()`
 //@   # (Call/loop0 spawn invariant) and decremented only by a worker on its way out (this function).
 //@   rely counted : w.count >= 1
 
 //@ func (*Workers).worker$1
+//@   maypanic
 //@   props C14
 //@   at-call builtin.close#0 delivered : !panicking() ==> lastsent(item.output).result == lastres(item.value, 0) && lastsent(item.output).error == lastres(item.value, 1)
 //@   at-call dynamic#0 unlocked : nolocks()
@@ -405,6 +412,7 @@ package bigbuff
 // appends); offset = index of buffer[0]; consumers[c] = committed offset of c; c.offset = uncommitted delta.
 
 //@ func (*Buffer).ensure
+//@   maypanic
 //@   props C11
 //@   # The body applies a slice of closures under the lock; its functional postcondition is not verified
 //@   # (closure slices are outside the engine's reach) and is an assumed contract at call sites.
@@ -480,6 +488,7 @@ package bigbuff
 //@   props C12
 
 //@ func (*Buffer).Diff
+//@   maypanic
 //@   props C02 C03
 //@   action mutex
 //@   ensures foreign : !ret1 ==> ret0 == 0
@@ -527,6 +536,7 @@ package bigbuff
 //@   loop 0 pending-defer cancel : cancel != nil
 
 //@ func WaitCond$1
+//@   maypanic
 //@   props C05 C12
 //@   modular
 //@   requires wired : cond != nil && ctx != nil
@@ -639,23 +649,27 @@ package bigbuff
 //@   ensures committed : has(buf(c).consumers, c) == old(has(buf(c).consumers, c)) && buf(c).consumers[c] == old(buf(c).consumers[c])
 
 //@ func (*consumer).Close
+//@   maypanic
 //@   requires recv : c != nil
 //@   props C12
 //@   ensures once : old(oncedone(c.close)) ==> err != nil
 //@   ensures first : !old(oncedone(c.close)) ==> err == nil && oncedone(c.close) && closed(c.done) && calls(c.cancel) >= 1
 
 //@ func (*consumer).Close$1
+//@   maypanic
 //@   props C12
 //@   loop 0 invariant mon : inv(c.mutex) && heldW(c.mutex) && calls(c.cancel) >= 1 && !closed(c.done) && oncedone(c.close)
 //@   at-call (producer).delete#0 settled : !panicking() ==> heldW(c.mutex) && c.offset == 0 && arg1 == c
 //@   at-call builtin.close#0 last : !panicking() ==> heldW(c.mutex) && c.offset == 0 && calls(c.cancel) >= 1 && arg0 == c.done
 
 //@ func (*Buffer).Close
+//@   maypanic
 //@   props C12
 //@   ensures once : old(oncedone(b.close)) ==> err != nil
 //@   ensures first : !old(oncedone(b.close)) ==> err == nil && oncedone(b.close)
 
 //@ func (*Buffer).Close$1
+//@   maypanic
 //@   props C12
 //@   loop 0 invariant mon : inv(b.mutex) && heldW(b.mutex) && calls(b.cancel) >= 1 && oncedone(b.close) && !closed(b.done)
 //@   at-call builtin.close#0 drained : !panicking() ==> heldW(b.mutex) && len(b.consumers) == 0 && calls(b.cancel) >= 1 && arg0 == b.done
@@ -676,6 +690,7 @@ package bigbuff
 //@   at-call (context.Context).Err#0 first : true
 
 //@ func Range$1
+//@   maypanic
 //@   props C02
 //@   modular
 //@   explore-panics
@@ -702,9 +717,47 @@ package bigbuff
 //@   holds W : c.mutex
 
 //@ func (*Buffer).cleanup
+//@   maypanic
 //@   props C04 C12 C01
 //@   requires recv : b != nil
-//@   loop WaitCond>0 invariant mon : inv(b.mutex) && heldW(b.mutex)
+//@   loop WaitCond>0 invariant mon : inv(b.mutex) && heldW(b.mutex) && mutex != nil
+
+//@ # The cooldown state machine: `timer` (non-nil while cooling down) and `broadcast` (a run was skipped while
+//@ # cooling down) are shared between the cleanup goroutine and the timer goroutines, under the local `mutex`.
+//@ func (*Buffer).cleanup$1
+//@   props C04
+//@   modular
+//@   holds W : b.mutex
+//@   guard-local mutex : timer broadcast
+//@   requires wired : b != nil && mutex != nil && inv(b.mutex)
+//@   # cooling down: the run is skipped but remembered, so that the timer goroutine re-broadcasts
+//@   ensures skipped [C04] : old(timer) != nil ==> broadcast && timer == old(timer) && icalls("(*Buffer).cleanupLogic") == 0 && spawned("(*Buffer).cleanup$1$1") == 0
+//@   # otherwise the cleaner runs exactly once, now
+//@   ensures ran [C04] : old(timer) == nil ==> icalls("(*Buffer).cleanupLogic") == 1
+//@   # with a cooldown, exactly one timer goroutine is started and the skipped-run flag is cleared (the run just done saw every change so far)
+//@   ensures armed [C04] : old(timer) == nil && d > 0 ==> timer != nil && !broadcast && spawned("(*Buffer).cleanup$1$1") == 1
+//@   ensures idle [C04] : old(timer) == nil && d <= 0 ==> timer == nil && spawned("(*Buffer).cleanup$1$1") == 0
+//@   ensures inv : inv(b.mutex)
+
+//@ # the timer goroutine: waits for the timer, then (deferred) re-enables the cycle
+//@ func (*Buffer).cleanup$1$1
+//@   props C04
+//@   modular
+//@   requires wired : mutex != nil && b != nil && timer != nil && b.cond != nil
+//@   # timer is read here without the local mutex: it was written before this goroutine was started and is next
+//@   # written (by cleanup$1) only after this goroutine's deferred function has reset it to nil under the mutex
+//@   at-call (*Buffer).cleanup$1$1$1#0 expired [C04] : receivedfrom(timer.C)
+//@   ensures fires [C04] : icalls("(*Buffer).cleanup$1$1$1") == 1
+
+//@ func (*Buffer).cleanup$1$1$1
+//@   props C04
+//@   modular
+//@   guard-local mutex : timer broadcast
+//@   requires wired : mutex != nil && b != nil && b.cond != nil
+//@   ensures reenabled [C04] : timer == nil && !broadcast
+//@   # a run skipped during the cooldown is made up for: the cleanup goroutine is woken
+//@   ensures rebroadcast [C04] : old(broadcast) ==> icalls("(*sync.Cond).Broadcast") == 1
+//@   ensures quiet [C04] : !old(broadcast) ==> icalls("(*sync.Cond).Broadcast") == 0
 
 // ---------------------------------------------------------------------------------------------------
 // C19 — Callable (callable.go), relative to the trusted specification of package reflect (rt_* / rv_*
@@ -829,6 +882,7 @@ package bigbuff
 //@   inv mutex targets : forall(k, any, forall(p, int, has(n.subscribers, k) && has(n.subscribers[k], p) ==> rv_valid(n.subscribers[k][p].target) && rt_kind(rv_type(n.subscribers[k][p].target)) == 18))
 
 //@ func (*Notifier).SubscribeContext
+//@   maypanic
 //@   props C15
 //@   action mutex
 //@   ensures added : has(n.subscribers, key) && has(n.subscribers[key], rv_pointer(rv_of(target))) && n.subscribers[key][rv_pointer(rv_of(target))].ctx == ctx && n.subscribers[key][rv_pointer(rv_of(target))].target == rv_of(target)
@@ -837,6 +891,7 @@ package bigbuff
 //@   ensures-panic inner_unchanged : forall(k, any, forall(p, int, has(n.subscribers[k], p) == old(has(n.subscribers[k], p))))
 
 //@ func (*Notifier).Unsubscribe
+//@   maypanic
 //@   props C15
 //@   action mutex
 //@   ensures removed : !(has(n.subscribers, key) && has(n.subscribers[key], rv_pointer(rv_of(target))))
@@ -907,6 +962,7 @@ package bigbuff
 //@   requires factory : x != nil && x.broken != nil && x.pongC != nil
 
 //@ func (*ChanPubSub).sanityCheckSubscribersDelta
+//@   maypanic
 //@   props C07
 //@   requires factory : x != nil && x.broken != nil && x.pongC != nil
 //@   # no false invariant panic: a count that moved by delta inside [0, MaxInt32] is accepted
@@ -921,6 +977,7 @@ package bigbuff
 //@   inline
 
 //@ func (*ChanPubSub).Wait
+//@   maypanic
 //@   props C06 C07
 //@   requires factory : x != nil
 //@   loop 0 invariant mon : inv(x.pongC) && heldW(x.pongC)
@@ -943,6 +1000,7 @@ package bigbuff
 //@   loop 0 invariant mon : inv(x.pongC) && heldW(x.pongC) && heldW(x.sendMu) && !held(x.sendingMu) && sent != 0
 
 //@ func (*ChanPubSub).Add
+//@   maypanic
 //@   props C06 C07
 //@   requires recv : x != nil
 //@   panics oob_lo : delta < -2147483647
@@ -963,6 +1021,7 @@ package bigbuff
 //@   ensures one : icalls("(*ChanPubSub).Add") == 1
 
 //@ func (*ChanPubSub).SubscribeContext$1
+//@   maypanic
 //@   props C06 C07
 //@   modular
 //@   explore-panics
